@@ -390,7 +390,7 @@ func init() {
 		ID:          "C02",
 		Level:       "model_checking",
 		Technique:   "explicit-state enumeration of frame-writer operation sequences x sink faults on the real buffer.Writer against a list-of-frames model; exhaustive enumeration of sessions over an 'odd vocabulary' of handler programs and client histories on a real server, every captured byte stream parsed by an independent strict backend grammar; write-fault enumeration (every k-th write fails)",
-		Rule:        "F1: all operation sequences of length <= d over 13 writer operations (within the Start..End bracket) x {healthy sink, k-th write fails (sticky / transient), short write}; F2: ErrorResponse shapes (C17 enumeration to depth 3); F3: ~3k sessions (result-writer programs x 0-3 columns with odd names x tags; 64 decorator subsets simple+extended; all extended histories of length <= 2 over the C06 alphabet; startup/global parameters with empty and non-ASCII values, auth none/good/bad; SSL refusal; COPY for 1-3 columns x 2 formats x 3 policies x short client sequences; oversized/unknown) and for every 3rd session every position of a failing write",
+		Rule:        "F1: all operation sequences of length <= d over 13 writer operations (within the Start..End bracket) x {healthy sink, k-th write fails (sticky / transient), short write}; F2: ErrorResponse shapes (C17 enumeration to depth 3); F3: ~3k sessions (result-writer programs x 0-3 columns with odd names x tags; 64 decorator subsets simple+extended; all extended histories of length <= 2 over the C06 alphabet; startup/global parameters with empty and non-ASCII values, auth none/good/bad; SSL refusal; COPY for 1-3 columns x 2 formats x 3 policies x short client sequences; oversized/unknown) and for every 3rd session every position of a failing write; F4: one-column rows over the whole C09 value alphabet (types x boundary values x source forms x NULL forms) x {text, binary}",
 		Assumptions: []string{"handler-supplied strings contain no NUL byte (a C-string field cannot carry one)", "buffer.Writer is used inside its documented Start..End bracket"},
 		Enumerate:   c02Enumerate,
 		Bounds: func(tier string) map[string]any {
@@ -465,6 +465,38 @@ func c02Enumerate(tier string, emit explore.Emit) {
 					return res
 				}})
 		})
+	}
+	// F4: rows of every value of the C09 alphabet (all types, boundary values, source forms, NULL forms), text and
+	// binary: whatever the value, the reply is a sequence of complete messages
+	vals, nulls := c09Values(tier)
+	for _, bin := range []bool{false, true} {
+		var cells []c09Cell
+		for _, v := range vals {
+			for _, f := range v.Forms {
+				cells = append(cells, c09Cell{v.Type, v.OID, f.Name, f.V, v.Canon})
+			}
+		}
+		for _, n := range nulls {
+			for _, f := range n.Forms {
+				cells = append(cells, c09Cell{n.Type, n.OID, f.Name, f.V, "NULL"})
+			}
+		}
+		for _, cell := range cells {
+			cell, bin := cell, bin
+			emit(explore.Case{Family: "typed-rows", Size: 1,
+				Desc: func() any { return map[string]any{"row": cell.String(), "binary": bin} },
+				Run: func() explore.Result {
+					r := c09Run([]c09Cell{cell}, bin)
+					var res explore.Result
+					res.Outcome, res.Key, res.Engine = "typed-rows", "typed "+r.Key, r.Engine
+					for _, v := range r.Violations {
+						if v.Clause == "reply-grammar" {
+							res.Fail("malformed-backend-stream", fmt.Sprintf("row %s (binary=%v): %s", cell, bin, v.Detail))
+						}
+					}
+					return res
+				}})
+		}
 	}
 	// F3
 	for i, s := range c02Sessions(tier) {
